@@ -256,7 +256,7 @@ def apply_repo(w, e, fi, clsbind, args, kwargs, s):
             if any(s.contradicts(subst(c, pmap)) for c in conds):
                 continue
             s1 = s.copy()
-            for c in sm.path_conds[id(p)]:
+            for c in sm.path_facts[id(p)]:
                 s1.add(subst(c, pmap))
             s1.ev("inlined", site, callee, subst(p.events, pmap))
             if p.kind == "raise":
@@ -354,10 +354,13 @@ def build_summary(eng, fi, clsbind, inline=frozenset()):
     sm.paths = paths
     sm.params = fi.params()
     sm.path_conds = {}
+    sm.path_facts = {}
     normal = {}
     for p in paths:
-        conds = frozenset(f for f in p.facts if f[0] in COND_KINDS and is_param_rooted(f))
+        rooted = frozenset(f for f in p.facts if is_param_rooted(f))
+        conds = frozenset(f for f in rooted if f[0] in COND_KINDS)
         sm.path_conds[id(p)] = conds
+        sm.path_facts[id(p)] = rooted
         if p.kind == "raise":
             sm.escapes.append((p.value, conds | p.value.conds))
         else:
@@ -406,7 +409,7 @@ def build_summary(eng, fi, clsbind, inline=frozenset()):
                 continue
             common = merge_facts(sel)
             for f in common - facts:
-                if f != L and f[0] in ("has", "ok", "type", "eq", "ret", "cmp", "integral"):
+                if f != L and f[0] in ("has", "ok", "type", "eq", "ret", "cmp", "integral", "truthy", "falsy", "keys", "keysin", "in", "forall"):
                     imps.add(("imp", L, f))
         sm.groups[rk] = {"facts": facts | imps, "value": value, "rettype": rettype, "retfacts": retfacts, "n": len(ps)}
     sm.npaths = len(paths)
